@@ -126,13 +126,13 @@ name, its resource, exactly its secret (or none) and exactly its generation (or 
 theorem C33_roundtrip {Y : Type} (A : Aead) (hA : A.Lawful) (C : Codec Y) (hC : C.Lawful)
     (pw : Option Bytes) (rnd : Nat → Bytes × Bytes) (hr : rndWf rnd) (b : Backup Y) (hb : b.wf) :
     read A C pw (write A C pw rnd b) = .ok ⟨manifestOf pw b, expectedEntries b⟩ :=
-  read_write hA hC pw pw hr b hb (fun _ _ => Or.inr (Or.inr rfl))
+  read_write hA hC pw pw hr b hb.wfDot (fun _ _ => Or.inr (Or.inr rfl))
 
 /-- An archive written without a password restores under any reader password. -/
 theorem C33_roundtrip_clear_any_reader {Y : Type} (A : Aead) (hA : A.Lawful) (C : Codec Y) (hC : C.Lawful)
     (rpw : Option Bytes) (rnd : Nat → Bytes × Bytes) (hr : rndWf rnd) (b : Backup Y) (hb : b.wf) :
     read A C rpw (write A C none rnd b) = .ok ⟨manifestOf none b, expectedEntries b⟩ :=
-  read_write hA hC none rpw hr b hb (fun _ _ => Or.inr (Or.inl rfl))
+  read_write hA hC none rpw hr b hb.wfDot (fun _ _ => Or.inr (Or.inl rfl))
 
 /-- non-vacuity: the hypotheses are satisfiable (a lawful AEAD, a lawful codec, well-formed
 randomness) and the statement is about non-trivial data: three deployments (one without a
@@ -167,7 +167,7 @@ theorem C33_wrong_password {Y : Type} (A : Aead) (hA : A.Lawful) (C : Codec Y) (
       (∀ d ∈ b.deps, secretOf b d = none) ∧ ∀ e ∈ r.entries, e.secret = none) := by
   have hfail : (∃ d ∈ b.deps, secretOf b d ≠ none) →
       read A C (some pw') (write A C (some pw) rnd b) = .error .invalidTag := fun hex =>
-    read_write_fail hA hC pw (some pw') hr b hb .invalidTag rfl
+    read_write_fail hA hC pw (some pw') hr b hb.wfDot .invalidTag rfl
       (fun st n k x hdot => readMember_wrong_pw hA pw pw' hne hr rfl st n k x hdot) hex
   refine ⟨hfail, ?_⟩
   intro r hrd
@@ -179,7 +179,7 @@ theorem C33_wrong_password {Y : Type} (A : Aead) (hA : A.Lawful) (C : Codec Y) (
       have := hfail ⟨d, hd, by rw [hs]; exact fun h => by cases h⟩
       rw [this] at hrd; cases hrd
   refine ⟨hnone, ?_⟩
-  have hok := read_write hA hC (some pw) (some pw') hr b hb (fun d hd => Or.inl (hnone d hd))
+  have hok := read_write hA hC (some pw) (some pw') hr b hb.wfDot (fun d hd => Or.inl (hnone d hd))
   rw [hok] at hrd
   cases hrd
   intro e he
@@ -193,7 +193,7 @@ theorem C33_no_password {Y : Type} (A : Aead) (hA : A.Lawful) (C : Codec Y) (hC 
     (pw : Bytes) (rnd : Nat → Bytes × Bytes) (hr : rndWf rnd) (b : Backup Y) (hb : b.wf)
     (hex : ∃ d ∈ b.deps, secretOf b d ≠ none) :
     read A C none (write A C (some pw) rnd b) = .error .noPassword :=
-  read_write_fail hA hC pw none hr b hb .noPassword rfl
+  read_write_fail hA hC pw none hr b hb.wfDot .noPassword rfl
     (fun st n k x hdot => readMember_no_pw pw rfl st n k x hdot) hex
 
 /-- non-vacuity: encrypted with the empty password, read with `"x"` and with none. -/
